@@ -169,6 +169,12 @@ fn build_charge_prog(e: &mut Ent) -> (Prog, u32) {
                 c.extend(encode(&Insn::Store { sz: Sz::L, s: e.below(4) as u8, ea: Ea::Pre(7) }));
                 Insn::Load { sz: Sz::L, ea: Ea::Post(7), d: e.below(4) as u8 }
             }
+            7 if e.chance(1, 3) => {
+                // reprogram one bit of a bus-controller register with a read-modify-write bit instruction
+                let reg = e.pick(&[ABWCR, ASTCR, WCRH, WCRL]);
+                c.extend(encode(&Insn::MovImm { sz: Sz::L, imm: reg | e.upper_byte(), d: 3 }));
+                Insn::Bit { op: e.pick(&[BitOp::Bset, BitOp::Bclr, BitOp::Bnot]), sel: BitSel::Imm(e.below(8) as u8), tgt: BitTgt::Ind(3) }
+            }
             7 | 8 => {
                 // reprogram one bus-controller register
                 let reg = e.pick(&[ABWCR, ASTCR, WCRH, WCRL, DRCRA]);
